@@ -60,7 +60,7 @@ func main() {
 			}
 		}
 		r.Deadline = r.Start.Add(d)
-		r.Pool = NewPool(NumWorkers())
+		r.Pool = NewPool(NumWorkers(), "GOMAXPROCS=1")
 		def.fn(r)
 		r.Pool.Close()
 		os.Exit(r.Finish())
